@@ -247,7 +247,7 @@ func (c *Check) oracle(pre *St, op Op, out Outcome, post *St, m *sm.SeatManager,
 		}
 		atomic.AddInt64(&c.nextOK, 1)
 		c.positions(post, bad)
-		c.lateJoiner(post, bad)
+		c.lateJoiner(post, bad, "")
 	}
 }
 
@@ -275,42 +275,82 @@ func (c *Check) positions(s *St, bad sink) {
 	}
 }
 
-// lateJoiner: from the state right after a successful Next, a newcomer takes an
-// empty seat strictly between dealer and big blind and sits in; with nobody
-// else moving he must be dealt in from exactly the first hand after the button
+// visitorPrefixes: every sequence of at most three operations on seat k alone
+// (earlier visitors who came and went) after which the seat is empty again.
+func visitorPrefixes(k int) [][]Op {
+	kinds := []string{"Join", "Seat", "Reserve", "Leave"}
+	out := [][]Op{{}}
+	var rec func(cur []Op)
+	rec = func(cur []Op) {
+		if len(cur) == 3 {
+			return
+		}
+		for _, kd := range kinds {
+			nx := append(append([]Op{}, cur...), Op{kd, k})
+			out = append(out, nx)
+			rec(nx)
+		}
+	}
+	rec(nil)
+	return out
+}
+
+// lateJoiner: from the state right after a successful Next, and after any
+// visitors to that seat alone have come and gone, a newcomer takes an empty
+// seat strictly between dealer and big blind and sits in; with nobody else
+// moving he must be dealt in from exactly the first hand after the button
 // has moved past his seat.
-func (c *Check) lateJoiner(p *St, bad sink) {
+func (c *Check) lateJoiner(p *St, bad sink, tag string) {
 	n := p.N
 	for k := 0; k < n; k++ {
 		if p.Occ[k] || !between(p.D, k, p.BB, n) || p.D == p.BB {
 			continue
 		}
-		atomic.AddInt64(&c.scenarios, 1)
-		m := Build(p)
-		if o := Apply(m, Op{"Join", k}); o.Err != nil || o.Panic != "" {
-			continue // seat cannot be taken (e.g. reserved): not the scenario of the statement
-		}
-		if o := Apply(m, Op{"Seat", k}); o.Err != nil || o.Panic != "" {
-			continue
-		}
-		passed := false
-		for hand := 1; hand <= n+1; hand++ {
-			prevD := seatID(m.Dealer())
-			o := Apply(m, Op{Kind: "Next"})
-			if o.Panic != "" || o.Err != nil {
-				break
-			}
-			s := Snap(m, n)
-			if !passed && (between(prevD, k, s.D, n) || s.D == k) {
-				passed = true
-			}
-			if s.playable(k) != passed {
-				sig := "late-joiner:dealt-in-early"
-				if passed {
-					sig = "late-joiner:kept-out"
+		for _, prefix := range visitorPrefixes(k) {
+			m := Build(p)
+			okPrefix := true
+			for _, op := range prefix {
+				if o := Apply(m, op); o.Panic != "" {
+					okPrefix = false
+					break
 				}
-				bad(sig, fmt.Sprintf("newcomer on seat %d (between dealer %d and big blind %d of [%s]): hand %d after joining, dealer %d -> %d, button has passed the seat: %v, dealt in: %v", k, p.D, p.BB, p, hand, prevD, s.D, passed, s.playable(k)), fmt.Sprintf("dealt in = %v", passed), fmt.Sprintf("dealt in = %v", s.playable(k)))
-				return
+			}
+			if !okPrefix {
+				continue
+			}
+			if s := m.GetSeat(k); s == nil || s.Player != nil {
+				continue // a visitor is still there: not an empty seat
+			}
+			atomic.AddInt64(&c.scenarios, 1)
+			if o := Apply(m, Op{"Join", k}); o.Err != nil || o.Panic != "" {
+				continue
+			}
+			if o := Apply(m, Op{"Seat", k}); o.Err != nil || o.Panic != "" {
+				continue
+			}
+			passed := false
+			for hand := 1; hand <= n+1; hand++ {
+				prevD := seatID(m.Dealer())
+				o := Apply(m, Op{Kind: "Next"})
+				if o.Panic != "" || o.Err != nil {
+					break
+				}
+				s := Snap(m, n)
+				if !passed && (between(prevD, k, s.D, n) || s.D == k) {
+					passed = true
+				}
+				if s.playable(k) != passed {
+					sig := "late-joiner:dealt-in-early" + tag
+					if passed {
+						sig = "late-joiner:kept-out" + tag
+					}
+					var pl []string
+					for _, op := range prefix {
+						pl = append(pl, op.Label())
+					}
+					bad(sig, fmt.Sprintf("after earlier visitors %v came and went, a newcomer takes seat %d (between dealer %d and big blind %d of [%s]) and sits in: hand %d after joining, dealer %d -> %d, button has passed the seat: %v, dealt in: %v", pl, k, p.D, p.BB, p, hand, prevD, s.D, passed, s.playable(k)), fmt.Sprintf("dealt in = %v", passed), fmt.Sprintf("dealt in = %v", s.playable(k)))
+					return
+				}
 			}
 		}
 	}
@@ -334,6 +374,7 @@ func (c *Check) Run() {
 		if c.Property == "C18" {
 			c.availability(pre, func(sig, msg, exp, obs string) { c.report(b, nd.ID, "", sig, msg, exp, obs) })
 		}
+
 		for _, op := range ops {
 			bound := 0
 			if op.Kind == "Join" && op.K == -1 {
